@@ -22,6 +22,21 @@ class Boom(Exception):
     pass
 
 
+class AttnBlock(torch.nn.Module):
+    """single-head attention scores: two quantized projections multiplied by bmm, no clone in between"""
+
+    def __init__(self):
+        super().__init__()
+        self.q_proj = torch.nn.Linear(16, 16)
+        self.k_proj = torch.nn.Linear(16, 16)
+
+    def forward(self, x):
+        q = self.q_proj(x)
+        k = self.k_proj(x)
+        s = torch.bmm(q, k.transpose(1, 2))
+        return s.dequantize() if isinstance(s, Q.QTensor) else s
+
+
 class InplaceBlock(torch.nn.Module):
     """a block that post-processes quantized module outputs with in-place scalar arithmetic"""
 
@@ -72,9 +87,14 @@ def run_prog(p, model, ctxs, x, trace):
             run_prog(q, model, ctxs, x, trace)
     elif kind == "with":
         c = ctxs[p[1]]
-        with c:
-            trace.append(("inside", snap_globals()))
-            run_prog(p[2], model, ctxs, x, trace)
+        at_entry = snap_globals()
+        try:
+            with c:
+                trace.append(("inside", snap_globals()))
+                run_prog(p[2], model, ctxs, x, trace)
+        finally:
+            # leaving a context (normally or through an exception) restores what the registries held when it was entered
+            trace.append(("left", {"restored": at_entry == snap_globals(), "pre": len(tmod._global_forward_pre_hooks) - at_entry["pre"], "post": len(tmod._global_forward_hooks) - at_entry["post"]}))
     elif kind == "forward":
         model(x)
     elif kind == "raise":
@@ -102,7 +122,8 @@ def main():
                 except Boom:
                     raised = True
                 after = snap_globals()
-                r.update(before=before, after=after, raised=raised, max_inside=max([t[1]["pre"] - before["pre"] for t in trace] + [0]))
+                r.update(before=before, after=after, raised=raised, max_inside=max([t[1]["pre"] - before["pre"] for t in trace if t[0] == "inside"] + [0]),
+                         left=[t[1] for t in trace if t[0] == "left"])
                 # modules created / run afterwards are unaffected: a fresh float model must not be touched by leftover hooks
                 fresh = torch.nn.Sequential(torch.nn.Linear(8, 4))
                 quantize(fresh, weights=Q.qint8, activations=Q.qint8)
@@ -113,15 +134,15 @@ def main():
             elif case["kind"] == "purity":
                 wq = {"qint8": Q.qint8, "qint4": Q.qint4, "qint2": Q.qint2, "qfloat8": Q.qfloat8}[case["weights"]]
                 aq = {None: None, "qint8": Q.qint8, "qfloat8": Q.qfloat8}[case["activations"]]
-                model = InplaceBlock() if case.get("inplace") else torch.nn.Sequential(torch.nn.Linear(16, 16), torch.nn.LayerNorm(16), torch.nn.Linear(16, 4))
-                x = torch.randn(3, 16)
+                model = AttnBlock() if case.get("attn") else InplaceBlock() if case.get("inplace") else torch.nn.Sequential(torch.nn.Linear(16, 16), torch.nn.LayerNorm(16), torch.nn.Linear(16, 4))
+                x = torch.randn(2, 5, 16) if case.get("attn") else torch.randn(3, 16)
                 float_before = {k: digest(v) for k, v in model.state_dict().items()}
                 float_params = {k: v.detach().clone() for k, v in model.state_dict().items()}
                 quantize(model, weights=wq, activations=aq)
                 # quantize() keeps the float parameters bit-identical
                 r["quantize_keeps_params"] = all(digest(model.state_dict()[k]) == float_before[k] for k in float_before if k in model.state_dict())
                 if aq is not None:
-                    with torch.no_grad(), Calibration(streamline=not case.get("inplace")):
+                    with torch.no_grad(), Calibration(streamline=not (case.get("inplace") or case.get("attn"))):
                         model(x)
                 if case.get("frozen"):
                     freeze(model)
